@@ -27,7 +27,12 @@ REPO = os.environ.get("VERIF_REPO", "/repo")
 PY = sys.executable
 ALLOWED_AXIOMS = {"propext", "Classical.choice", "Quot.sound"}
 FORBIDDEN = re.compile(
-    r"\b(sorry|admit|native_decide|bv_decide|implemented_by|unsafe)\b|^\s*axiom\s|maxHeartbeats\s+0\b",
+    # `axiom` also behind attributes / modifiers (`private axiom`, `@[simp] axiom`); `decide +native` and the axioms it rests on;
+    # `extern` (like implemented_by: replaces compiled code); `sorryAx` spelled out
+    r"\b(sorry|sorryAx|admit|native_decide|bv_decide|implemented_by|extern|unsafe|ofReduceBool|ofReduceNat|trustCompiler)\b"
+    r"|\+native\b"
+    r"|^\s*(?:@\[[^\]]*\]\s*)*(?:(?:private|protected|noncomputable|nonrec)\s+)*axiom\s"
+    r"|maxHeartbeats\s+0\b",
     re.M,
 )
 TRUSTED_BASE = [
@@ -121,15 +126,43 @@ def regenerate(ctx, gens):
     ctx.cov["generated_modules"] = gens
 
 
-def theorems_in(path):
+_DECL_RE = re.compile(
+    r"^\s*(?:[^\n]*?\bin\s+)?(?:@\[[^\]]*\]\s*)*(?:(?:private|protected|nonrec|noncomputable)\s+)*(theorem|lemma)\s+([^\s:(\[{]+)")
+_KW_RE = re.compile(r"(?<![\w.'])(theorem|lemma)\s+[^\s:(\[{]")
+
+
+def theorems_in(path, problems=None):
+    """fully qualified names of every `theorem` / `lemma` of a Props file.  Tracks nested `namespace … end`
+    (sections are scopes too), accepts attributes and modifiers in front of the keyword, and cross-checks the
+    number of names found against the number of `theorem`/`lemma` keywords in the comment-stripped source: a
+    declaration this parser cannot name is reported in `problems` (⇒ broken obligation) instead of silently
+    escaping the `#print axioms` audit."""
     src = strip_comments(open(path).read())
-    ns = None
+    stack = []  # (kind, name)
     names = []
-    for m in re.finditer(r"^(namespace|theorem|lemma)\s+([^\s:(\[{]+)", src, re.M):
-        if m.group(1) == "namespace":
-            ns = m.group(2)
-        else:
-            names.append((ns + "." if ns else "") + m.group(2))
+    for line in src.splitlines():
+        m = re.match(r"^\s*(namespace|section|mutual)\b\s*([^\s]*)", line)  # `mutual … end` is a scope too
+        if m:
+            stack.append((m.group(1), m.group(2)))
+            continue
+        m = re.match(r"^\s*end\b\s*([^\s]*)", line)
+        if m and stack:
+            stack.pop()
+            continue
+        m = _DECL_RE.match(line)
+        if m:
+            ns = ".".join(n for k, n in stack if k == "namespace" and n)
+            nm = m.group(2)
+            if nm.startswith("_root_."):
+                names.append(nm[len("_root_."):])
+            else:
+                names.append((ns + "." if ns else "") + nm)
+            if problems is not None and re.search(r"\bprivate\s+(theorem|lemma)\b", line):
+                problems.append(f"{os.path.basename(path)}: private {m.group(1)} {nm} cannot be audited by name from outside the module")
+    n_kw = len(_KW_RE.findall(src))
+    if problems is not None and n_kw != len(names):
+        problems.append(f"{os.path.basename(path)}: {n_kw} theorem/lemma keywords but {len(names)} names parsed "
+                        "(a declaration does not start its own line, or uses a form the audit parser does not know)")
     return names
 
 
@@ -184,9 +217,17 @@ def audit(ctx, props_modules):
                     bad_tokens.append(f"{os.path.relpath(p, LEAN)}: {m.group(0).strip()}")
     for b in bad_tokens:
         ctx.broken.append({"kind": "forbidden-token", "name": b, "detail": b})
-    names = []
+    names, problems = [], []
     for mod in props_modules:
-        names += theorems_in(os.path.join(LEAN, *mod.split(".")) + ".lean")
+        found = theorems_in(os.path.join(LEAN, *mod.split(".")) + ".lean", problems)
+        if not found:
+            problems.append(f"{mod}: no theorem found — nothing would be audited")
+        names += found
+    for pr in problems:
+        ctx.broken.append({"kind": "audit-parse", "name": pr.split(":")[0], "detail": pr})
+    if len(set(names)) != len(names):
+        dup = sorted({n for n in names if names.count(n) > 1})
+        ctx.broken.append({"kind": "audit-parse", "name": ",".join(dup)[:200], "detail": "theorem names parsed twice (namespace tracking lost?)"})
     obligations = names
     os.makedirs(os.path.join(LEAN, "Audit"), exist_ok=True)
     ap = os.path.join(LEAN, "Audit", f"{ctx.pid}.lean")
@@ -197,6 +238,9 @@ def audit(ctx, props_modules):
             f.write(f"#print axioms {n}\n")
     rc, out, err = sh(["lake", "env", "lean", ap], cwd=LEAN, timeout=1200)
     txt = out + err
+    if rc != 0:
+        # every missing name is reported below as well; this line makes a crash / timeout of the audit run itself visible
+        ctx.broken.append({"kind": "audit-run", "name": f"Audit/{ctx.pid}.lean", "detail": f"lean exited {rc}: " + txt[-600:]})
     axioms_used = set()
     for n in names:
         m = re.search(r"'" + re.escape(n) + r"' (does not depend on any axioms|depends on axioms: \[([^\]]*)\])", txt)
@@ -240,6 +284,39 @@ def write_replay(ctx, name, payload):
     return os.path.relpath(p, ROOT)
 
 
+_COUNT_KEYS = ("cases", "rows", "histories", "ops", "meshes", "batches", "instances", "lines", "segfacet_rows", "selfint_rows")
+
+
+def _stream_counts(v, depth=0):
+    """(has_count_field, total) of a correspondence statistics dict (one level of nesting allowed)"""
+    has, tot = False, 0
+    if isinstance(v, dict):
+        for k, x in v.items():
+            if k in _COUNT_KEYS and isinstance(x, int) and not isinstance(x, bool):
+                has, tot = True, tot + x
+            elif isinstance(x, dict) and depth < 1:
+                h2, t2 = _stream_counts(x, depth + 1)
+                has, tot = has or h2, tot + t2
+    return has, tot
+
+
+def check_streams(ctx):
+    """a check must not pass without having compared anything: with a built driver at least one correspondence stream
+    must have run, and no stream may report zero compared items"""
+    if not getattr(ctx, "driver_ok", False):
+        return
+    streams = {k: v for k, v in ctx.cov.items() if k.startswith("correspondence") and not k.endswith("samples")}
+    if not any(isinstance(v, dict) for v in streams.values()):
+        ctx.broken.append({"kind": "no-stream", "name": ctx.pid, "detail": "driver built but no correspondence stream statistics recorded"})
+    for k, v in streams.items():
+        if isinstance(v, str):
+            ctx.broken.append({"kind": "empty-stream", "name": k, "detail": v})
+        elif isinstance(v, dict):
+            has, tot = _stream_counts(v)
+            if has and tot == 0:
+                ctx.broken.append({"kind": "empty-stream", "name": k, "detail": "stream compared zero items"})
+
+
 def finish(ctx, level_text=""):
     """print KNOWN-FINDING / VIOLATION lines, write evidence, return exit code"""
     known = [k for k in load_known()["findings"] if k["property"] == ctx.pid]
@@ -250,8 +327,10 @@ def finish(ctx, level_text=""):
     # deterministic replay of every listed finding of this property (oracles/known.py): printed on every run while it reproduces
     try:
         from oracles import known as known_replays
-    except Exception:  # noqa: BLE001
+    except Exception as e:  # noqa: BLE001
         known_replays = None
+        if known:
+            print(f"note: oracles/known.py could not be imported ({type(e).__name__}: {str(e)[:120]}); listed findings are not replayed")
     for k in known:
         if known_replays is None or any(f["key"] == k["key"] for f in ctx.failing):
             continue
@@ -330,6 +409,10 @@ def main():
         regenerate(ctx, getattr(mod, "GEN", []))
         drv = lake_build_quiet(["driver"])
         ctx.driver_ok = drv
+        if not drv:
+            # without the driver every correspondence stream is skipped by the checks (`if ctx.driver_ok`): the model would
+            # no longer be compared with the code, which must not pass silently (a stale binary is never used either)
+            ctx.broken.append({"kind": "driver-build", "name": "driver", "detail": "lake build driver failed: correspondence streams not run"})
         ok = lake_build(ctx, mod.LEAN_TARGETS + ([] if not drv else ["driver"]))
         if ok:
             audit(ctx, mod.PROPS)
@@ -347,6 +430,7 @@ def main():
             ctx.failing.append({"key": f"unexpected-exception:{type(e).__name__}",
                                 "desc": f"{type(e).__name__}: {str(e)[:200]} raised at {where[:160]} while the check exercised the real code",
                                 "replay": {"traceback_tail": tb[-1500:]}})
+        check_streams(ctx)
         sys.exit(finish(ctx))
     except SystemExit:
         raise
